@@ -139,7 +139,56 @@ def names_of_module(tree) -> dict:
         if en:
             enumerated[q] = en
     return {'consts': sorted(consts), 'funcs': funcs, 'kws': kws, 'class_consts': cconsts, 'attrs': attrs, 'enumerated': enumerated,
-            'digests': {q: func_digest(f) for q, f, _ in func_quals(tree)}}
+            'digests': {q: func_digest(f) for q, f, _ in func_quals(tree)},
+            'alpha': {q: list(af) for q, f, _ in func_quals(tree) for af in [alpha_form(f)] if af is not None}}
+
+
+def alpha_form(f):
+    """(digest of the function with its local names replaced by positional placeholders, local names in placeholder order), or None
+    when a nested def / lambda has a parameter named like a local (then a consistent renaming is not a plain substitution)"""
+    a = f.args
+    params = {x.arg for x in a.posonlyargs + a.args + a.kwonlyargs}
+    if a.vararg:
+        params.add(a.vararg.arg)
+    if a.kwarg:
+        params.add(a.kwarg.arg)
+    L = local_names(f) - params
+    if not L:
+        return None
+    for n in ast.walk(f):
+        if n is f:
+            continue
+        if isinstance(n, (ast.FunctionDef, ast.AsyncFunctionDef, ast.Lambda)):
+            if {x.arg for x in ast.walk(n.args) if isinstance(x, ast.arg)} & L:
+                return None
+        if isinstance(n, (ast.Import, ast.ImportFrom, ast.Global, ast.Nonlocal)):
+            if isinstance(n, (ast.Global, ast.Nonlocal)) or {(al.asname or al.name).split('.')[0] for al in n.names} & L:
+                return None
+    g = copy.deepcopy(f)
+    order = []
+
+    def ph(name):
+        if name not in order:
+            order.append(name)
+        return f'_L{order.index(name)}'
+    for n in ast.walk(g):
+        if isinstance(n, ast.Name) and n.id in L:
+            n.id = ph(n.id)
+        elif isinstance(n, (ast.FunctionDef, ast.AsyncFunctionDef, ast.ClassDef)) and n is not g and n.name in L:
+            n.name = ph(n.name)
+        elif isinstance(n, ast.ExceptHandler) and n.name and n.name in L:
+            n.name = ph(n.name)
+    return func_digest(g), order
+
+
+def rename_locals(f, mapping):
+    for n in ast.walk(f):
+        if isinstance(n, ast.Name) and n.id in mapping:
+            n.id = mapping[n.id]
+        elif isinstance(n, (ast.FunctionDef, ast.AsyncFunctionDef, ast.ClassDef)) and n is not f and n.name in mapping:
+            n.name = mapping[n.name]
+        elif isinstance(n, ast.ExceptHandler) and n.name and n.name in mapping:
+            n.name = mapping[n.name]
 
 
 def func_digest(f) -> str:
@@ -726,6 +775,36 @@ class Normaliser:
             for q, f, _ in func_quals(self.modules[path].tree):
                 if q in ref and ref[q] != func_digest(f):
                     self.edited.add((path, q))
+        # N10: an edited function that is the reference function up to a renaming of its locals gets the reference names back
+        for path in sorted(self.modules):
+            ref_a = self.base.get(path, {}).get('alpha')
+            if not ref_a:
+                continue
+            for q, f, _ in func_quals(self.modules[path].tree):
+                if (path, q) in self.edited and q in ref_a:
+                    af = alpha_form(f)
+                    if af is not None and af[0] == ref_a[q][0] and len(af[1]) == len(ref_a[q][1]) and af[1] != ref_a[q][1]:
+                        mapping = {c: b for c, b in zip(af[1], ref_a[q][1]) if c != b}
+                        # two-step renaming through fresh names (a swap of two names must not collide)
+                        tmp = {c: f'__kvtmp{i}' for i, c in enumerate(mapping)}
+                        rename_locals(f, tmp)
+                        rename_locals(f, {tmp[c]: b for c, b in mapping.items()})
+                        self.edited.discard((path, q))
+                        self.log.append(f'N10 {path}::{q}: {len(mapping)} local(s) renamed back to the names of the reference function (alpha-equivalent)')
+                    elif af is not None:
+                        # edited beyond a renaming: when exactly one local of the reference function is gone and exactly one new local
+                        # appeared, give the new one the old name (renaming a local to a name the function does not use is always an
+                        # equivalence; it only decides under which name the rules look at it)
+                        base_l = set(self.base.get(path, {}).get('funcs', {}).get(q, ()))
+                        cur_l = local_names(f)
+                        new_l, gone = cur_l - base_l, base_l - cur_l
+                        if len(new_l) == 1 and len(gone) == 1:
+                            g_ = next(iter(gone))
+                            n_ = next(iter(new_l))
+                            used = {x.id for x in ast.walk(f) if isinstance(x, ast.Name)} | {x.arg for x in ast.walk(f) if isinstance(x, ast.arg)}
+                            if g_ not in used and n_ in af[1]:
+                                rename_locals(f, {n_: g_})
+                                self.log.append(f'N10 {path}::{q}: the only new local {n_} takes the name of the only local that disappeared ({g_})')
         self._collect()
         self._inline_new_properties()
         for path in sorted(self.modules):
